@@ -240,14 +240,14 @@ theorem sim_fn (f : Str) (b : Stmt) (hs : supCmd K (.fn f b) = true) (hd : Dyn K
     (hp : NoPending s) (hx : s.exit = {}) (q : Prop) :
     Rel (Post K k sub False q s) (run (n+1) (.cmd (.fn f b)) s)
       (sem (n+1) k (.cmd (.fn f b)) (absEnv s)) := by
-  have hb : ∃ p, b = .mk false (.block p) ∧ supProg (fnK K.e) true p = true := by
+  have hb : supStmt (fnK K.e) b = true := by
     cases b with
     | mk neg c =>
       cases neg with
       | true => simp [supCmd] at hs
       | false =>
         cases c <;> first | (simp [supCmd] at hs; done) | skip
-        case block p => exact ⟨p, rfl, by simpa [supCmd, fnCtx_eq] using hs⟩
+        case block p => simpa [supStmt, supCmd, fnCtx_eq] using hs
   simp only [run, sem, stop_false_of_exit hx, Rel, Post]
   refine ⟨?_, ⟨hd.cerr, hd.csub, ?_, hd.ht, hd.eign, hd.noe, hd.sfn, hd.inl⟩,
     ⟨rfl, rfl, rfl⟩, ?_, hp, ?_, ?_⟩
